@@ -7,8 +7,7 @@ use serde_json::{json, Value};
 use crate::choices::Choices;
 use crate::engine::{GenCtx, Outcome, Params, Property, RunCtx, Tier};
 use crate::fmt::format_text;
-use crate::gen::conf::{gen_conf, ConfSpace};
-use crate::gen::source::{gen_source, SrcSpace};
+use crate::gen::conf::ConfSpace;
 use crate::props::common::*;
 
 pub struct C02;
@@ -37,15 +36,15 @@ impl Property for C02 {
     fn params(&self, tier: Tier) -> Params {
         Params {
             cases: match tier {
-                Tier::Quick => 0,
-                Tier::Thorough => 0,
+                Tier::Quick => 20_000,
+                Tier::Thorough => 400_000,
             },
             max_bytes: 768,
             timeout: Duration::from_secs(20),
         }
     }
     fn rule(&self) -> &'static str {
-        "corpus chunks / generated programs, re-laid out, under a random configuration; oracle: fmt(fmt(x)) == fmt(x) byte for byte and the second run reports no error; judged only when the first run reports no error; non-trivial = first run changed the text and some output line is within 3 columns of max_width; distinct by case content"
+        "corpus grid cells (chunk x layout x configuration), plus generated impl / trait blocks holding every kind of associated item in random order (with and without reorder_impl_items, width 30..110) and generated line / doc comments whose lines end near the wrapping boundary under wrap_comments (comment_width 40..100); oracle: fmt(fmt(x)) == fmt(x) byte for byte and the second run reports no error; judged only when the first run reports no error; non-trivial = first run changed the text and some output line is within 3 columns of max_width; distinct by case content"
     }
     fn enum_len(&self, g: &GenCtx) -> usize {
         grid_len(g, 150_000, usize::MAX)
@@ -60,14 +59,56 @@ impl Property for C02 {
         }
         Some(cell_case(&cell))
     }
-    fn generate(&self, c: &mut Choices<'_>, g: &GenCtx) -> Value {
-        let s = gen_source(c, g, &SrcSpace::default());
-        let space = ConfSpace {
-            min_edition: min_edition_static(&s.edition),
-            ..ConfSpace::default()
-        };
-        let opts = gen_conf(c, &space);
-        json!({"src": s.text, "opts": opts_to(&opts), "origin": s.origin, "layout": s.layout})
+    fn generate(&self, c: &mut Choices<'_>, _g: &GenCtx) -> Value {
+        // targeted programs: (a) impl / trait blocks with every kind of associated item in a random
+        // order, with and without reorder_impl_items; (b) comments whose lines end near the
+        // wrapping boundary under wrap_comments
+        if c.flip() {
+            let mut items: Vec<String> = vec![];
+            let n = 2 + c.below(7);
+            for i in 0..n {
+                items.push(match c.below(6) {
+                    0 => format!("type T{i} = u{};", [8, 16, 32][c.below(3)]),
+                    1 => format!("const C{i}: usize = {};", c.below(100)),
+                    2 => format!("mac_{i}!();"),
+                    3 => format!("fn f{i}(&self) -> usize {{ {} }}", c.below(10)),
+                    4 => format!("mac_{i}! {{ a, b }}"),
+                    _ => format!("fn g{i}() {{}}"),
+                });
+            }
+            let head = *c.pick(&["impl Foo", "impl Tr for Foo", "impl<T: Clone> Tr<T> for Foo<T>"]);
+            let src = format!("{head} {{\n{}\n}}\n", items.iter().map(|x| format!("    {x}")).collect::<Vec<_>>().join("\n"));
+            let mut opts: crate::fmt::Opts = vec![];
+            if c.chance(2, 3) {
+                opts.push(("reorder_impl_items".into(), "true".into()));
+            }
+            if c.chance(1, 3) {
+                opts.push(("max_width".into(), (30 + c.below(80)).to_string()));
+            }
+            return json!({"src": src, "opts": opts_to(&opts), "origin": "prog", "layout": 0, "tags": ["impl-items"]});
+        }
+        {
+            const WORDS: &[&str] = &["a", "to", "the", "word", "comment", "wrapping", "boundary", "exactly", "implementation", "x", "https://example.com/a/very/long/url/that/cannot/be/broken", "`code`"];
+            let style = *c.pick(&["//", "///", "//!"]);
+            let indent = if style == "//!" { 0 } else { c.below(3) * 4 };
+            let lines = 1 + c.below(4);
+            let mut body = String::new();
+            for _ in 0..lines {
+                let target = 30 + c.below(90);
+                let mut l = String::new();
+                while l.len() < target {
+                    if !l.is_empty() {
+                        l.push(' ');
+                    }
+                    l.push_str(*c.pick(WORDS));
+                }
+                body.push_str(&format!("{}{style} {l}\n", " ".repeat(indent)));
+            }
+            let src = if indent == 0 { format!("{body}fn f() {{}}\n") } else { format!("mod m {{\n{body}{}fn f() {{}}\n}}\n", " ".repeat(indent)) };
+            let src = if style == "//!" { body.clone() + "fn f() {}\n" } else { src };
+            let opts: crate::fmt::Opts = vec![("wrap_comments".into(), "true".into()), ("comment_width".into(), (40 + c.below(61)).to_string()), ("max_width".into(), (60 + c.below(60)).to_string())];
+            return json!({"src": src, "opts": opts_to(&opts), "origin": "prog", "layout": 0, "tags": ["wrapped-comment"]});
+        }
     }
     fn run(&self, case: &Value, _r: &RunCtx) -> Outcome {
         let src = case["src"].as_str().unwrap_or("");
